@@ -245,6 +245,45 @@ fn drive(cfg: &Config, slot: usize, progs: &[(String, Vec<Req>, Vec<u8>)], memcr
         }
     }
     crate::watchdog::beat();
+    // ---- a populated store: 1500 items, read back, flushed (behaviour must not depend on how
+    // many items a configuration happens to hold) ----
+    {
+        let mut c = Client::connect(srv.addr)?;
+        let n = 1500usize;
+        let mut bytes = vec![];
+        for i in 0..n {
+            bytes.extend(Req::store(op::SETQ, format!("pop{}", i).as_bytes(), format!("v{}", i).as_bytes(), i as u32, 0, 0).opaque(i as u32).bytes());
+        }
+        bytes.extend(Req::bare(op::NOOP).opaque(0xb001).bytes());
+        bytes.extend(Req::get(op::GET, b"pop0").opaque(0xb002).bytes());
+        bytes.extend(Req::get(op::GET, format!("pop{}", n - 1).as_bytes()).opaque(0xb003).bytes());
+        bytes.extend(Req::flush(op::FLUSH, None).opaque(0xb004).bytes());
+        bytes.extend(Req::get(op::GET, b"pop0").opaque(0xb005).bytes());
+        bytes.extend(Req::bare(op::NOOP).opaque(0xb006).bytes());
+        let sent = c.send(&bytes);
+        let got = c.read_frames(6, patience);
+        let seen: Vec<(u8, u16, u32)> = wire::split_responses(&got).0.iter().map(|r| (r.opcode, r.status, r.opaque)).collect();
+        let want = vec![
+            (op::NOOP, st::OK, 0xb001),
+            (op::GET, st::OK, 0xb002),
+            (op::GET, st::OK, 0xb003),
+            (op::FLUSH, st::OK, 0xb004),
+            (op::GET, st::NOT_FOUND, 0xb005),
+            (op::NOOP, st::OK, 0xb006),
+        ];
+        if !sent || seen != want {
+            problems.push((
+                "populated-store".into(),
+                format!("{} quiet sets, noop, 2 gets, flush, get, noop on one connection answered {:?}, expected {:?}", n, seen, want),
+            ));
+        }
+        for r in wire::split_responses(&got).0 {
+            transcript.extend_from_slice(&[r.opcode]);
+            transcript.extend_from_slice(&r.status.to_be_bytes());
+            transcript.extend_from_slice(&r.body);
+        }
+    }
+    crate::watchdog::beat();
     // ---- item size limit: body = limit accepted, limit + 1 refused ----
     {
         let mut c = Client::connect(srv.addr)?;
@@ -483,7 +522,7 @@ pub fn check(tier: Tier) -> CheckOutcome {
             "programs_run": programs_run,
             "samples": samples,
             "exhaustive": tier == Tier::Thorough,
-            "rule": "grid runtime-type {current-thread, multi-thread} x threads {1,2,8} x eviction {none, random 64MiB} x port {11211, 24680} x max-item-size {1KiB, 1MiB} x connection-limit {1,3} (quick: a covering subset of 8; thorough: all 96); each configuration is a real server process started through cli::parser::parse + runtime_builder::create_memcrs_server; driven with the spanning-tree histories of the C01/C07 explorations as one pipelined connection; transcripts compared byte-for-byte across configurations and (CAS-stripped) with the in-process run; limit probes; one real-time TTL probe",
+            "rule": "grid runtime-type {current-thread, multi-thread} x threads {1,2,8} x eviction {none, random 64MiB} x port {11211, 24680} x max-item-size {1KiB, 1MiB} x connection-limit {1,3} (quick: a covering subset of 8; thorough: all 96); each configuration is a real server process started through cli::parser::parse + runtime_builder::create_memcrs_server; driven with the spanning-tree histories of the C01/C07 explorations as one pipelined connection; transcripts compared byte-for-byte across configurations and (CAS-stripped) with the in-process run; a 1500-item population read back and flushed; limit probes; one real-time TTL probe",
         }),
         assumptions: vec![
             "timing enters only as patience: positive expectations wait up to 5 s, 'not served' waits 300 ms".into(),
